@@ -31,6 +31,12 @@ type c16inl struct {
 	R []int  `yaml:"r,omitempty"`
 }
 
+// c16inl2 is an inline struct that has a catch-all of its own: it receives what the outer struct left over, nothing else.
+type c16inl2 struct {
+	Q    string         `yaml:"q"`
+	More map[string]any `yaml:",inline"`
+}
+
 // value option for a key
 type c16val struct {
 	json   string // JSON text
@@ -167,6 +173,8 @@ func c16build(fields []c16field, inline string) c16type {
 		sf = append(sf, reflect.StructField{Name: "Rest", Type: reflect.TypeOf(&ordered.MapSA{}), Tag: `yaml:",inline"`})
 	case "struct":
 		sf = append(sf, reflect.StructField{Name: "Rest", Type: reflect.TypeOf(c16inl{}), Tag: `yaml:",inline"`})
+	case "struct+map":
+		sf = append(sf, reflect.StructField{Name: "Rest", Type: reflect.TypeOf(c16inl2{}), Tag: `yaml:",inline"`})
 	}
 	return c16type{fields: fields, inline: inline, rt: reflect.StructOf(sf), descr: "struct{" + strings.Join(names, ",") + "; inline=" + inline + "}"}
 }
@@ -438,6 +446,25 @@ func c16judgeDoc(t c16type, keys []string, st map[string]int, prefill bool) c16v
 			nullOnNonNillable = true
 		}
 		expected["Rest"] = map[string]any{"Q": q, "R": r}
+	case "struct+map":
+		q := ""
+		if st["q"] > 1 {
+			q = "q1"
+		}
+		if st["q"] == 1 {
+			nullOnNonNillable = true
+		}
+		more := map[string]any{}
+		for _, k := range leftovers {
+			if k != "q" {
+				more[k] = leftVal(k)
+			}
+		}
+		if len(more) == 0 {
+			expected["Rest"] = map[string]any{"Q": q, "More": c16nilMap}
+		} else {
+			expected["Rest"] = map[string]any{"Q": q, "More": more}
+		}
 	}
 
 	// ---- real code
@@ -510,7 +537,8 @@ func c16judgeDoc(t c16type, keys []string, st map[string]int, prefill bool) c16v
 		}
 	}
 	// ---- differential with yaml.v3
-	if hasAlias || !wellTyped || nullOnNonNillable || t.inline == "omap" {
+	// (yaml.v3 leaves a catch-all map nested inside an inline struct empty; that shape is compared with the partition rule only)
+	if hasAlias || !wellTyped || nullOnNonNillable || t.inline == "omap" || t.inline == "struct+map" {
 		return c16verdict{}
 	}
 	dst2 := mkDst()
@@ -584,6 +612,9 @@ func c16keysOf(t c16type) []string {
 	if t.inline == "struct" {
 		keys = append(keys, "q", "r")
 	}
+	if t.inline == "struct+map" {
+		keys = append(keys, "q")
+	}
 	return keys
 }
 
@@ -622,7 +653,7 @@ func c16run(w *report.W) {
 	rec(0, nil)
 	ntypes := 0
 	for _, fs := range sets {
-		for _, inline := range []string{"none", "map", "omap", "struct"} {
+		for _, inline := range []string{"none", "map", "omap", "struct", "struct+map"} {
 			t := c16build(fs, inline)
 			ntypes++
 			if w.Mine(t.descr) {
@@ -811,7 +842,7 @@ func init() {
 	register(&report.Check{
 		ID: "C16",
 		Rule: "programs x inputs: every struct type built with reflect.StructOf from <=2 (quick) / <=3 (thorough) fields of a 21-field alphabet (string,int,bool,float64,[]string,[]int," +
-			"map[string]string,map[string]any,any,nested struct,pointer to struct,*ordered.Map[string,struct],*ordered.Map[string,[]string],untagged,a tag with upper-case letters (plus its lower-case look-alike as an unknown key),yaml:\"-\",five alias-carrying (one with `_` and `-` in its alias names, whose fragments are offered as unknown keys), fields two of which share a primary key with an alias-free or differently aliased field) x inline part in {none,map[string]any,*ordered.MapSA,struct}; " +
+			"map[string]string,map[string]any,any,nested struct,pointer to struct,*ordered.Map[string,struct],*ordered.Map[string,[]string],untagged,a tag with upper-case letters (plus its lower-case look-alike as an unknown key),yaml:\"-\",five alias-carrying (one with `_` and `-` in its alias names, whose fragments are offered as unknown keys), fields two of which share a primary key with an alias-free or differently aliased field) x inline part in {none,map[string]any,*ordered.MapSA,struct,struct with a catch-all map of its own}; " +
 			"for each type every document over its keys + aliases + an unknown key + the empty-string key (+ the inline struct's keys), each key absent / null / one of its 2-5 values, " +
 			"in forward and reversed key order, into a sentinel-prefilled and a zero destination; plus, for the one- and two-field types, documents with 9 / 63 / 64 / 65 / 129 unknown keys in front of or behind the type's own keys; compared with the partition rule (field values, inline content and order) and, for alias-free " +
 			"well-typed cases, with yaml.v3's Node.Decode into the same reflect type. Non-trivial = at least one key present.",
